@@ -57,7 +57,9 @@ theorem replayGo_lgKeep : ∀ (l : List Stmt) (s : BSt), LgKeep s (replayRing.go
     unfold replayRing.go
     simp only []
     split
-    · exact dispatch_lgKeep s x
+    · split
+      · exact ((dispatch_lgKeep s x).trans (LgKeep.of_lview rfl)).trans (replayGo_lgKeep xs _)
+      · exact dispatch_lgKeep s x
     · exact (dispatch_lgKeep s x).trans (replayGo_lgKeep xs _)
 
 theorem replayRing_lgKeep (s : BSt) (lgi : Nat) : LgKeep s (replayRing s lgi).1 := by
